@@ -84,6 +84,7 @@ func genMapRanges() {
 	defer os.Chdir(old)
 	imp := importer.ForCompiler(fset, "source", nil)
 	var rows []string
+	var carried []string
 	var dirs []string
 	filepath.Walk(repo, func(p string, info os.FileInfo, err error) error {
 		if err != nil {
@@ -141,6 +142,11 @@ func genMapRanges() {
 					if _, isMap := tv.Type.Underlying().(*types.Map); isMap {
 						ord++
 						rows = append(rows, fmt.Sprintf("(%s, %s, %d)", leanStr(names[i]), leanStr(fd.Name.Name), ord))
+						var cs []string
+						for _, c := range carriedVars(rs) {
+							cs = append(cs, leanStr(c))
+						}
+						carried = append(carried, fmt.Sprintf("(%s, %s, %d, [%s])", leanStr(names[i]), leanStr(fd.Name.Name), ord, strings.Join(cs, ", ")))
 					}
 					return true
 				})
@@ -148,6 +154,7 @@ func genMapRanges() {
 		}
 	}
 	sort.Strings(rows)
+	sort.Strings(carried)
 	if len(rows) == 0 {
 		refuse("no map range found: type checking from source failed")
 	}
@@ -155,8 +162,61 @@ func genMapRanges() {
 	b.WriteString("namespace RubyTi.Gen\n")
 	b.WriteString("/-- every `range` over a map-typed value in the module: (file, function, ordinal) -/\n")
 	b.WriteString("def mapRanges : List (String × String × Nat) := [\n  " + strings.Join(rows, ",\n  ") + "]\n")
+	b.WriteString("/-- per map range: the plain variables declared OUTSIDE the loop body that the body assigns (what one iteration hands to the next) -/\n")
+	b.WriteString("def mapRangeCarried : List (String × String × Nat × List String) := [\n  " + strings.Join(carried, ",\n  ") + "]\n")
 	b.WriteString("end RubyTi.Gen\n")
 	writeGen("MapRanges", b.String())
+}
+
+// carriedVars: identifiers assigned (=, op=, ++/--) in the body of a range loop that are not declared inside that body.
+// Writes through an index or a field (m[k] = v, x.f = v) are not listed: per-key updates are what the reviewed loops do.
+func carriedVars(rs *ast.RangeStmt) []string {
+	declared := map[string]bool{}
+	assigned := map[string]bool{}
+	if id, ok := rs.Key.(*ast.Ident); ok {
+		declared[id.Name] = true
+	}
+	if id, ok := rs.Value.(*ast.Ident); ok {
+		declared[id.Name] = true
+	}
+	ast.Inspect(rs.Body, func(n ast.Node) bool {
+		switch x := n.(type) {
+		case *ast.AssignStmt:
+			for _, l := range x.Lhs {
+				if id, ok := l.(*ast.Ident); ok && id.Name != "_" {
+					if x.Tok == token.DEFINE {
+						declared[id.Name] = true
+					} else {
+						assigned[id.Name] = true
+					}
+				}
+			}
+		case *ast.IncDecStmt:
+			if id, ok := x.X.(*ast.Ident); ok {
+				assigned[id.Name] = true
+			}
+		case *ast.RangeStmt:
+			if id, ok := x.Key.(*ast.Ident); ok && x.Tok == token.DEFINE {
+				declared[id.Name] = true
+			}
+			if id, ok := x.Value.(*ast.Ident); ok && x.Tok == token.DEFINE {
+				declared[id.Name] = true
+			}
+		case *ast.ValueSpec:
+			for _, id := range x.Names {
+				declared[id.Name] = true
+			}
+		}
+		return true
+	})
+	var out []string
+	for name := range assigned {
+		if !declared[name] {
+			out = append(out, name)
+		}
+	}
+	sort.Strings(out)
+	return out
 }
 
 var _ = token.NoPos
